@@ -36,7 +36,7 @@ def is_string_alias(t):
 
 
 def is_user_class(t):
-    return inspect.isclass(t) and getattr(t, "__module__", "").startswith(("vgen_", "vtopo_"))
+    return inspect.isclass(t) and getattr(t, "__module__", "").startswith(("vgen_", "vtopo_", "tests."))
 
 
 def exempt(m):
